@@ -349,19 +349,35 @@ func runC14(c C14Case) (res common.Result) {
 		res.Fail = common.Failf("close-not-idempotent", "second Close = %v", err)
 		return
 	}
-	// the rotation goroutine has exited and all handles are released
-	gone := false
-	for i := 0; i < 2000; i++ {
-		buf := make([]byte, 1<<18)
-		if !strings.Contains(string(buf[:runtime.Stack(buf, true)]), "raft-wal.(*WAL).runRotate") {
-			gone = true
+	// the rotation goroutine has exited and all handles are released. A goroutine that is
+	// still around is a leak only if it is parked (same state in two dumps): after Close
+	// closed its channel it is runnable and merely needs CPU time to exit.
+	prevState := ""
+	for i := 0; ; i++ {
+		buf := make([]byte, 1<<20)
+		dump := string(buf[:runtime.Stack(buf, true)])
+		state := ""
+		for _, g := range strings.Split(dump, "\n\n") {
+			if strings.Contains(g, "raft-wal.(*WAL).runRotate") {
+				state = strings.SplitN(g, "\n", 2)[0]
+				if j := strings.Index(state, "["); j >= 0 {
+					state = state[j:]
+				}
+			}
+		}
+		if state == "" {
 			break
 		}
-		time.Sleep(500 * time.Microsecond)
-	}
-	if !gone {
-		res.Fail = common.Failf("rotation-goroutine-leak", "one second after Close returned the rotation goroutine is still alive")
-		return
+		parked := strings.HasPrefix(state, "[chan receive") || strings.HasPrefix(state, "[semacquire") || strings.HasPrefix(state, "[sync.Mutex.Lock") || strings.HasPrefix(state, "[select")
+		if parked && state == prevState && i >= 2 {
+			res.Fail = common.Failf("rotation-goroutine-leak", "after Close returned the rotation goroutine is still parked %s (same state in consecutive dumps): it never exits", state)
+			return
+		}
+		prevState = state
+		if i > 600 {
+			common.Inconclusive("rotation goroutine neither exits nor is provably parked")
+		}
+		time.Sleep(200 * time.Millisecond)
 	}
 	if n := fs.OpenHandles(); n != 0 {
 		res.Fail = common.Failf("handles-leak", "after Close and all calls returned, %d file handles are still open", n)
